@@ -190,6 +190,7 @@ class TraceProp(Prop):
             out.mismatches.append({'stream': '%s at marker %d (%s)' % (sec, order[j], obs['markers'][order[j]]['label']),
                                    'impl': a, 'model': b})
         self.extra_judge(case, obs, out)
+        obs['_tags'] = list(out.tags)
         return out
 
     def on_error(self, case, obs, out):
@@ -202,6 +203,12 @@ class TraceProp(Prop):
         pass
 
     def signature(self, case, obs, v):
+        # SQLAlchemy's row switch (delete + insert of one key in ONE flush, delivered as an UPDATE whose
+        # unchanged-flag columns do not hold the stored values) is the open finding F-ROWSWITCH: it shows
+        # either in the program or as a violation of the W2 contract on an `upd` event of the trace
+        if v['clause'] == 'C01.newestIsLive' and (_row_switch_in(case.get('program') or []) or
+                                                  'wf_violated:upd' in (obs.get('_tags') or [])):
+            return 'C01.newestIsLive:row_switch'
         return v['clause']
 
     def shrinks(self, case):
@@ -245,8 +252,49 @@ class C03(TraceProp):
     def make_case(self, rng, tier):
         spec = proggen.random_spec(rng, strategy='validity', plugins=[])
         n = rng.choice(self.steps_quick) if tier == 'quick' else rng.choice((10, 20, 40, 60))
-        prog = proggen.random_program(rng, spec, n, weights={'del': 4, 'readd': 4})
+        prog = proggen.random_program(rng, spec, n, weights={'del': 4, 'readd': 4}, allow_class_switch=True)
         return {'spec': spec, 'autoflush': rng.random() < 0.3, 'program': prog}
+
+    def class_switch(self, case):
+        """does the program re-create a key as another class of its hierarchy?"""
+        seen = {}
+        from .. import envs
+        for st in case['program']:
+            if st[0] == 'add':
+                c = envs.class_spec(case['spec'], st[1])
+                while c.get('parent'):
+                    c = envs.class_spec(case['spec'], c['parent'])
+                k = (c['name'], tuple(st[2]))
+                if k in seen and seen[k] != st[1]:
+                    return True
+                seen[k] = st[1]
+        return False
+
+    def judge(self, case, obs, answers):
+        out = TraceProp.judge(self, case, obs, answers)
+        if self.class_switch(case):
+            out.tags.append('class_switch')
+            # per-table chain of the base table (table of the root class) decided here only to tell the open
+            # finding (abandoned subclass table) from anything else
+            base_ok = True
+            for mk in obs['markers']:
+                rows = [r.split(' ') for r in mk['versions']]
+                by = {}
+                for f in rows:
+                    by.setdefault((f[0], f[1]), []).append((int(f[2]), f[3]))
+                for (tid, pk), vs in by.items():
+                    vs.sort()
+                    for i, (tx, end) in enumerate(vs):
+                        exp = 'N' if i == len(vs) - 1 else str(vs[i + 1][0])
+                        if end != exp and tid == '0':
+                            base_ok = False
+            if base_ok:
+                for v in out.violations:
+                    if v['clause'] == 'C03.Holds':
+                        v['clause'] = 'C03.Holds:abandoned_subclass_table'
+                for m in out.mismatches:
+                    m['signature'] = 'C03.Holds:abandoned_subclass_table'
+        return out
 
 
 class DevAll(TraceProp):
@@ -288,11 +336,6 @@ class C01(TraceProp):
             'one transaction; distinct = distinct (spec, program)')
     needs_tags = ['multi_flush_tx', 'multi_tx', 'key_reused_after_delete', 'shape:joined', 'shape:single',
                   'shape:composite', 'plugin:null_delete', 'strategy:subquery', 'autoflush', 'rollback']
-
-    def signature(self, case, obs, v):
-        if v['clause'] == 'C01.newestIsLive' and _row_switch_in(case['program']):
-            return 'C01.newestIsLive:row_switch'
-        return v['clause']
 
     def pick_plugins(self, rng):
         return None
@@ -414,11 +457,11 @@ class C13(TraceProp):
 class C17(TraceProp):
     id = 'C17'
     theorems = ['Continuum.c17_holds']
-    sections = ('changes', 'versions')
+    sections = ('changes', 'versions', 'mgr')
     seg_fields = ('C17',)
     plugins = ['tx_changes']
     shapes = ['articles', 'comment', 'joined', 'joined3', 'single', 'm2m', 'composite']
-    weights = {'flush': 8}
+    weights = {'flush': 8, 'sp_begin': 2, 'sp_commit': 2, 'sp_rollback': 3, 'add': 8}
     rule = ('random programs touching random subsets of the versioned classes per transaction in 1-4 flushes '
             '(inheritance included) with the transaction-changes plugin; transaction_changes rows compared with the '
             'model and judged by C17.Holds at every commit; Transaction.changed_entities / entity_names of every '
